@@ -31,10 +31,12 @@ func c17Int(g *g17, count int) {
 			name := []string{"add", "sub", "mul"}[op/2]
 			need := map[string]int{"add": max(x.c, y.c) + 1, "sub": max(x.c, y.c) + 1, "mul": x.c + y.c}[name]
 			cp, cs := g.capArg(need)
-			al := g.r.IntN(3)
-			g.emit(fmt.Sprintf("i.%s a%d %s %s %s", name, al, x, y, cs), func() string {
+			al := g.r.IntN(4)
+			ro := g.reuseIf(al == 3)
+			al %= 3
+			g.emit(fmt.Sprintf("%s a%d %s %s %s", ro.op("i."+name), al, x, y, cs), func() string {
 				a, b := x.int(), y.int()
-				out := new(numct.Int)
+				out := ro.int(x.c + y.c)
 				if al == 1 {
 					out = a
 				} else if al == 2 {
@@ -75,10 +77,12 @@ func c17Int(g *g17, count int) {
 				x = g.cintOf(new(big.Int).Mul(y.val(), g.smallInt()))
 			}
 			name := []string{"div", "divvt", "ediv", "edivvt"}[op-6]
-			al := g.r.IntN(2)
-			g.emit(fmt.Sprintf("i.%s a%d %s %s", name, al, x, y), func() string {
+			al := g.r.IntN(3)
+			ro := g.reuseIf(al == 2)
+			al %= 2
+			g.emit(fmt.Sprintf("%s a%d %s %s", ro.op("i."+name), al, x, y), func() string {
 				a, b := x.int(), y.int()
-				q := new(numct.Int)
+				q := ro.int(x.c)
 				if al == 1 {
 					q = a
 				}
@@ -87,21 +91,21 @@ func c17Int(g *g17, count int) {
 				var rBig *big.Int
 				switch name {
 				case "div", "divvt":
-					var r numct.Int
+					r := ro.int(y.c)
 					if name == "div" {
-						ok = q.Div(&r, a, b)
+						ok = q.Div(r, a, b)
 					} else {
-						ok = q.DivVarTime(&r, a, b)
+						ok = q.DivVarTime(r, a, b)
 					}
-					rs, rBig = intSS(&r), r.Big()
+					rs, rBig = intSS(r), r.Big()
 				default:
-					var r numct.Nat
+					r := ro.nat(y.c)
 					if name == "ediv" {
-						ok = q.EuclideanDiv(&r, a, b)
+						ok = q.EuclideanDiv(r, a, b)
 					} else {
-						ok = q.EuclideanDivVarTime(&r, a, b)
+						ok = q.EuclideanDivVarTime(r, a, b)
 					}
-					rs, rBig = natS(&r), r.Big()
+					rs, rBig = natS(r), r.Big()
 				}
 				if ok == ct.False {
 					return "none"
@@ -121,9 +125,10 @@ func c17Int(g *g17, count int) {
 		case 10: // neg / abs / double / square / incr / decr
 			x := g.cint()
 			name := []string{"neg", "abs", "double", "square", "incr", "decr"}[g.r.IntN(6)]
-			g.emit(fmt.Sprintf("i.%s %s", name, x), func() string {
+			ro := g.reuse()
+			g.emit(fmt.Sprintf("%s %s", ro.op("i."+name), x), func() string {
 				a := x.int()
-				out := new(numct.Int)
+				out := ro.int(2 * x.c)
 				switch name {
 				case "neg":
 					out.Neg(a)
@@ -148,8 +153,9 @@ func c17Int(g *g17, count int) {
 				f := g.natN(64)
 				x, y = g.cintOf(new(big.Int).Mul(x.val(), f)), g.cintOf(new(big.Int).Mul(y.val(), f))
 			}
-			g.emit(fmt.Sprintf("i.gcd %s %s", x, y), func() string {
-				var out numct.Int
+			ro := g.reuse()
+			g.emit(fmt.Sprintf("%s %s %s", ro.op("i.gcd"), x, y), func() string {
+				out := *ro.int(max(x.c, y.c))
 				out.GCD(x.int(), y.int())
 				g.xc("i.gcd", out.Big(), new(big.Int).GCD(nil, nil, new(big.Int).Abs(x.val()), new(big.Int).Abs(y.val())))
 				return intSS(&out) + "," + b01(x.int().Coprime(y.int()))
@@ -163,8 +169,9 @@ func c17Int(g *g17, count int) {
 					x = g.cintOf(new(big.Int).Neg(x.v))
 				}
 			}
-			g.emit(fmt.Sprintf("i.sqrt %s", x), func() string {
-				var out numct.Int
+			ro := g.reuse()
+			g.emit(fmt.Sprintf("%s %s", ro.op("i.sqrt"), x), func() string {
+				out := *ro.int(x.c)
 				if out.Sqrt(x.int()) == ct.False {
 					return "none"
 				}
@@ -200,8 +207,9 @@ func c17Int(g *g17, count int) {
 			x := g.cint()
 			sh := []int{0, 1, 7, 63, 64, 65, g.r.IntN(200), g.r.IntN(x.c + 2)}[g.r.IntN(8)]
 			name := []string{"lsh", "rsh"}[g.r.IntN(2)]
-			g.emit(fmt.Sprintf("i.%s %s %d", name, x, sh), func() string {
-				var out numct.Int
+			ro := g.reuse()
+			g.emit(fmt.Sprintf("%s %s %d", ro.op("i."+name), x, sh), func() string {
+				out := *ro.int(x.c + sh)
 				if name == "lsh" {
 					out.Lsh(x.int(), uint(sh))
 				} else {
@@ -221,9 +229,10 @@ func c17Int(g *g17, count int) {
 				cp = need + g.r.IntN(70)
 				cs = strconv.Itoa(cp)
 			}
-			g.emit(fmt.Sprintf("i.%s %s %s %s", name, x, y, cs), func() string {
+			ro := g.reuse()
+			g.emit(fmt.Sprintf("%s %s %s %s", ro.op("i."+name), x, y, cs), func() string {
 				a, b := x.int(), y.int()
-				var out numct.Int
+				out := *ro.int(cp)
 				want := new(big.Int)
 				switch name {
 				case "and":
@@ -292,15 +301,16 @@ func c17Int(g *g17, count int) {
 					bs[0] &= 1
 				}
 			}
-			g.emit(fmt.Sprintf("i.fromtwos %s", hexBytes(bs)), func() string {
-				var a numct.Int
+			ro := g.reuse()
+			g.emit(fmt.Sprintf("%s %s", ro.op("i.fromtwos"), hexBytes(bs)), func() string {
+				a := *ro.int(8 * len(bs))
 				if a.SetTwosComplementBytesBE(bs) != ct.True {
 					return "reject"
 				}
 				return intSS(&a)
 			})
-			g.emit(fmt.Sprintf("i.frombytes %s", hexBytes(bs)), func() string {
-				var a numct.Int
+			g.emit(fmt.Sprintf("%s %s", ro.op("i.frombytes"), hexBytes(bs)), func() string {
+				a := *ro.int(8 * len(bs))
 				if a.SetBytes(bs) != ct.True {
 					return "reject"
 				}
@@ -333,9 +343,10 @@ func c17Int(g *g17, count int) {
 				x = cnat{bi(int64(g.r.IntN(5)) - 2), 2 + g.r.IntN(70)}
 			}
 			ch := g.r.IntN(2)
-			g.emit(fmt.Sprintf("i.misc %d %s %s", ch, x, y), func() string {
+			ro := g.reuse()
+			g.emit(fmt.Sprintf("%s %d %s %s", ro.op("i.misc"), ch, x, y), func() string {
 				a, b := x.int(), y.int()
-				var sel, inv numct.Int
+				sel, inv := *ro.int(max(x.c, y.c)), *ro.int(x.c)
 				sel.Select(ct.Choice(ch), a, b)
 				ca := a.Clone()
 				ca.CondAssign(ct.Choice(ch), b)
